@@ -70,6 +70,10 @@ CHECKS = {
          "All sign/tie/multiple combinations occur in the exhaustively enumerated small scope; boundary products cover the 64-bit nanosecond window ends, both date range ends, spans around i64::MAX, zero/negative/inexpressible spans and the wall-clock basis for offsets; each successful result is re-rounded (depth 2) to show idempotence.",
          "Trusted: i128 floor arithmetic; RefLeapTime for leap-second operands of the sub-second operations. The RoundingError variant is not judged.",
          "DESIGN.md §4 C17"),
+ 'C18': ("exhaustive history exploration (stateless, every history executed from scratch): all event sequences up to length 5 (quick) / 6 (thorough) over a 15-event menu {10 TZ settings, 2 clock steps, conversion on thread A / B / a fresh thread} run against the real Local with the guarded mock clock, split over 16 child processes because TZ is process-global; oracle = reference set of zones allowed by the statement's one-second window; plus a hook-free replay of a stride of histories with real sleeps",
+         "Every sequence of environment changes, waits (< 1 s and >= 1 s) and conversions within the length bound is executed on fresh threads of a dedicated process; each conversion observes a 4-probe zone signature that must be exactly one zone's, and that zone must be one the statement allows at that moment; a decoy file with a zoneinfo-relative name in the working directory exposes wrong path resolution.",
+         "Hook: set_mock_now + one shadow line in Cache::offset (otherwise a '>= 1 s' step costs a real second). Trusted: RefTzif/RefPosix for the zone signatures. The sandbox's system zone is Etc/UTC.",
+         "DESIGN.md §4 C18"),
  'C19': ("exhaustive enumeration of the whole quantified domain: 7 weekdays, 12 months, 128 sets x 7 days, 128^2 set pairs, and every next/next_back history of the set iterator from all 896 initial states against a reference deque; conversions on integer lattices with alias classes; text parsing on all case variants, 1-edit mutants and short strings",
          "Everything the statement quantifies over is finite and is enumerated completely (exhaustive: true), except the integer and string arguments of the conversions, which are covered by lattices/alias classes and by all strings up to a length bound plus all 1-edit mutants of every name.",
          "Trusted: a [bool;7]/bitmask reference set and name tables written from the statement.",
